@@ -17,6 +17,7 @@ import (
 
 	"github.com/inbucket/inbucket/v3/pkg/extension/event"
 	"github.com/inbucket/inbucket/v3/pkg/policy"
+	"github.com/inbucket/inbucket/v3/pkg/verifhook"
 	"github.com/rs/zerolog"
 )
 
@@ -158,6 +159,7 @@ func (s *Server) startSession(id int, conn net.Conn, logger zerolog.Logger) {
 		Int("session", id).Logger()
 	logger.Info().Msg("Starting SMTP session")
 
+	verifhook.Point("smtp.session.start", "")
 	// Update WaitGroup and counters.
 	s.wg.Add(1)
 	expConnectsCurrent.Add(1)
